@@ -260,9 +260,10 @@ func verifH_C29_lifecycle() {
 //
 //verif:use ipc pipe handler httpx tokens
 //verif:sched quick=3 thorough=4
+//verif:race
 //verif:stub time.Now = verifC29Now
 //verif:stub (*github.com/Query-farm/vgi-rpc-go/vgirpc.sessionRegistry).ensureReaper = verifNoReaper
-//verif:bound one session opened sequentially by caller a; then two goroutines: G1 = handleUnary bearing the token (its handler uses the state across two yields and optionally closes the session), G2 = one of: a second handleUnary bearing the token (uses, optionally closes) | DELETE by the owner | clock past expiry + reaper tick | shutdown; ALL interleavings at synchronisation points (mutex, Once, atomics, explicit yields in the ghost handler) with at most 3 (thorough: 4) preemptive context switches; data races on plain memory are NOT modelled
+//verif:bound one session opened sequentially by caller a; then two goroutines: G1 = handleUnary bearing the token (its handler uses the state across two yields and optionally closes the session), G2 = one of: a second handleUnary bearing the token (uses, optionally closes) | DELETE by the owner | clock past expiry + reaper tick | shutdown; ALL interleavings at synchronisation points (mutex, Once, atomics, explicit yields in the ghost handler) with at most 3 (thorough: 4) preemptive context switches; a happens-before race detector watches every heap load and store of repository code on every explored schedule
 func verifH_C29_concurrent() {
 	h := verifC29Setup()
 	open := &verifC29Plan{open: true}
